@@ -147,7 +147,10 @@ class Tokenizer:
             return self._stack.pop()
 
         if start is None or end is None:
-            raise self.syntax_error("empty macro argument", tok)
+            if not string.strip():
+                raise self.syntax_error("empty macro argument", tok)
+            # only a backslash continuation between the delimiters: no token of its own, but text
+            start, end, line = after, tok.start, self.get_lines([after[0]])[0]
         if not string.strip():
             if comma:  # blank text before a comma is an empty argument too; dropping it would shift the following ones
                 raise self.syntax_error("empty macro argument", tok)
@@ -194,6 +197,7 @@ class Tokenizer:
         start = end = self._tokens[-1].end
         header: list[TokenInfo] | None = []  # blanks and a comment between the colon and the end of the header line
         block = False  # the header line ended right after the colon: an indented block follows
+        first_line = 0  # of the block: it may hold no token (a backslash continuation only)
         block_col = 0
         outside: dict[int, str] = {}  # comment lines left of the block (and what follows them): part of the block only if it goes on
         for tok in self._tokengen:
@@ -210,14 +214,18 @@ class Tokenizer:
                     continue
                 if tok.type == Token.NEWLINE:
                     header, block = None, True
+                    first_line = tok.start[0] + 1
                     continue
+                if (header[0] if header else tok).start[0] > start[0]:
+                    # one-line form with only a backslash continuation after the colon on its line: the text starts there
+                    lines[start[0]] = self.get_lines([start[0]])[0][start[1] :]
                 if header:  # one-line form: the text starts right after the colon
-                    lines[header[0].start[0]] = header[0].line[header[0].start[1] :]
+                    lines.setdefault(header[0].start[0], header[0].line[header[0].start[1] :])
                 header = None
             elif block and not is_indented:
                 if tok.type == Token.INDENT:
                     is_indented = True
-                    block_col = tok.end[1]
+                    block_col = len(tok.string.expandtabs(8))
                     continue
                 if tok.type in {Token.COMMENT, Token.NL, Token.WS}:
                     lines.setdefault(tok.start[0], tok.line)  # comment and blank lines before the first statement of the block
@@ -243,7 +251,8 @@ class Tokenizer:
                     continue
 
             if is_indented and tok.type in {Token.COMMENT, Token.NL, Token.WS}:
-                if outside or (tok.type == Token.COMMENT and tok.start[1] < block_col and not tok.line[: tok.start[1]].strip()):
+                before = tok.line[: tok.start[1]]
+                if outside or (tok.type == Token.COMMENT and not before.strip() and len(before.expandtabs(8)) < block_col):
                     outside.setdefault(tok.start[0], tok.line)
                     continue
             elif outside and tok.type != Token.DEDENT:
@@ -267,7 +276,7 @@ class Tokenizer:
         if lines:
             # physical lines on which no token starts (a line holding only a backslash continuation, the last line of a
             # multi-line string that is followed by a continuation) belong to the block as well
-            missing = [n for n in range(min(lines), max(lines) + 1) if n not in lines]
+            missing = [n for n in range(min(first_line or min(lines), min(lines)), max(lines) + 1) if n not in lines]
             lines.update(zip(missing, self.get_lines(missing)))
         string = "".join(lines[n] for n in sorted(lines))
         if is_indented:
